@@ -39,6 +39,9 @@ def _init_worker():
     H.ready()
     _worker['H'] = H
     _worker['dir'] = tempfile.mkdtemp(prefix='i18n-verif-c01.')
+    # a cache directory of its own (rply's table cache): the workers of this harness must not race with each other —
+    # the race between the tool's OWN -j workers is what the fresh-cache command-line runs below look for
+    os.environ['XDG_CACHE_HOME'] = os.path.join(_worker['dir'], '.cache')
     import atexit
     atexit.register(lambda: shutil.rmtree(_worker['dir'], ignore_errors=True))
 
@@ -404,6 +407,11 @@ def main():
             (['nonascii.po'], 'non-ASCII tags, ASCII terminal', 'ok', {'LC_ALL': 'C', 'LANG': 'C'}), (['nonascii.po'], 'non-ASCII tags, PYTHONIOENCODING=ascii:strict', 'ok', {'PYTHONIOENCODING': 'ascii:strict'}),
             (['nonascii.po', weird], 'non-ASCII tags, latin-1 terminal', 'ok', {'PYTHONIOENCODING': 'iso-8859-1'}), (['-j', '2', 'nonascii.po', weird], 'non-ASCII tags, -j, ASCII terminal', 'ok', {'LC_ALL': 'C', 'PYTHONIOENCODING': 'ascii'}),
         ]
+        # first use with -j: every worker builds the plural parser at the same moment; rply's on-disk cache does not exist yet
+        for k in range(6):
+            wd.write('race/p%d.po' % k, HG._wrap(HG._msg('', 'a%d' % k, 'b'), plural_forms='nplurals=2; plural=n != 1;'))
+        for k in range(40 if chk.thorough else 10):
+            runs.append((['-j', '6'] + ['race/p%d.po' % i for i in range(6)], '-j 6 with a fresh cache directory', 'ok', {'XDG_CACHE_HOME': os.path.join(wd.path, 'fresh-cache-%d' % k)}))
         n_special = len(runs)
         sample = rng.sample(cases, min(n_cli, len(cases)))
         for k, (idx, data, ext, opts) in enumerate(sample):
@@ -550,7 +558,7 @@ def main():
             flagged.append({'where': where, 'reason': e['reason'], 'pump': e['pump'][:60], 'exponent': m and m['exponent'], 'time_s': m and m['time_s']})
             pumps.append(('regex:%s#%d' % (where, e['hit_index']), (lambda n, e=e: RX.pump_for(e['pattern'], e['flags'], e['hit_index'], n, ' \x00'))))
             pumps.append(('regex:%s#%d:unclosed' % (where, e['hit_index']), (lambda n, e=e: RX.pump_for(e['pattern'], e['flags'], e['hit_index'], n, '')[:-1])))
-            if m and m['exponent'] >= 3.0 and m['time_s'] >= 0.05:
+            if m and m['exponent'] >= 3.0 and m['time_s'] >= 0.25:
                 subject = RX.pump_for(e['pattern'], e['flags'], e['hit_index'], m['string_n'], m['killer'] if m['killer'] != '<truncated>' else '')
                 if m['killer'] == '<truncated>':
                     subject = subject[:-1]
@@ -638,17 +646,33 @@ def main():
         chk.violation('proof obligation no longer checks', {'broken': chk.broken}, no_input=True)
     chk.finish(
         level='proof',
-        rule='slot-grammar files: base catalog with header slots (11 fields + extras), flag lists, format strings of the four kinds, plural declarations, charsets (110 names incl. '
-             'non-text codecs), dates, locale names, addresses, XML strings, PO lexical/structural shapes replaced from hostile pools; MO files from a Python serializer with hostile header '
-             'values, corrupted/truncated; random bytes; mutated black-box corpus; x options (-l, --file-type, base name, LC_MESSAGES directory, -j); non-trivial = distinct tag emitted',
+        rule='in-process: corpus/C01 witnesses + byte-mutated black-box corpus + slot-grammar files (header fields incl. X-Poedit-* and malformed names, flags, format strings of the four kinds, '
+             'plural declarations with boundary numerals / 4300-4301 digits / nesting 3..1500, 130 charset names incl. the tool\'s own, non-ASCII-compatible and non-text codecs, bodies encoded in the '
+             'declared or in a wide/stateful codec, dates, locale names, addresses with nested comments, XML-gated messages, PO lexical/structural shapes), MO files from a serializer (hostile headers, '
+             'corrupted words, truncation), random bytes, other extensions x options (-l valid/invalid, --file-type, base name, LC_MESSAGES directory); command line: special cases (unreadable paths, '
+             'options, -j, --unpack-deb, terminal encodings) + generated files; size-doubling families; regex screen with pump strings; pump strings in every slot at two sizes. '
+             'distinct_nontrivial = distinct tags emitted by the in-process runs (a measured lower bound on the distinct behaviours reached)',
         trusted=['Lean 4.33 kernel', 'axioms: propext, Classical.choice, Quot.sound only',
-                 'the composition theorem takes each stage outcome as a parameter: the NoCrash theorems of the component models discharge them only as far as those models go '
-                 '(Plural: C04-C07, MO loader: C09, C printf parser: C11, tag formatter: C02, and the models of C10, C12-C16, C18-C20 where merged)',
-                 'time, the regex engine, polib/rply/expat/iconv internals, the OS and -j are outside every model: decided by the search below (test level)'],
-        explanation='PROOF (Props/C01.lean): the model of Checker.check\'s loader/exception mapping is closed over the exceptions the loaders are proved to raise; run_pipeline_ok: if no stage '
-                    'raises, the run prints only tag lines and returns normally; the stage hypotheses are discharged by the component NoCrash theorems (listed in the file). '
-                    'TEST (this run): in-process crash/hang search on the real Checker.check, command-line runs (rc 0, empty stderr, line grammar, options, -j), size-doubling CPU-time stream '
-                    'over %d families.' % len(HG.TIMING_FAMILIES))
+                 'tools/translate/excmap2lean.py: ast walk over lib/, exception class expressions evaluated on the live modules; dispatch = first clause one of whose classes is in the MRO '
+                 '(compared with issubclass on every try site x class pair: stream pipeline-dispatch)',
+                 'the models of Checker.check, cli.main/check_all/check_file/check_deb and check_string are compared with the REAL functions under scripted collaborators '
+                 '(streams pipeline-check, -main, -file, -cstring, -pystring), not proved equal to them',
+                 'component theorems used (C02, C04-C07, C09, C11, C12, C18, C19) are tied to the source by their own checks, not re-tied here',
+                 'pipeline_nocrash takes the closure of the components still under construction as the named fields of `Pending` (C10 PO loader, C15 header stages, C16 message stage incl. C13/C14)',
+                 'time, recursion depth, the regex engine, polib/rply/expat/iconv/email internals, the OS, -j process handling and terminal encodings are outside every model: decided by the search (test level)'],
+        explanation='PARTIAL. PROOF (Props/C01.lean): exception closure of the modelled pipeline with the exception-to-tag mapping regenerated from the source on every run: pins strformat_errors_caught '
+                    '(every own-Error subclass and every raised class of each strformat module is reported as that format\'s *-format-string-error and swallowed for msgids), warnings_caught, plural_errors_caught, '
+                    'arithmetic_errors_caught, date_errors_caught, xml_errors_caught, charset_errors_caught, language_errors_caught, deb_errors_caught, check_sites_pin, loader_classification; '
+                    'checkString_nocrash, cCheckString_nocrash/_error_tag, pyCheckString_nocrash/_error_tag (C11, C12), braceCheckString_nocrash (hypothesis C13); check_uncaught_iff, check_total, '
+                    'loader_failure_lines, unreadable_is_tag, unknown_type_is_tag, broken_encoding_iff, mo_check_total, mo_load_agrees (C09), plurals_stage_total (C04-C07), dates_stage_total (C18), '
+                    'language_stage_total (C19); main_rc_zero_iff, main_ok, main_invalid_language, runSeq/runPar_fails_iff, checkFile_ok; pipeline_nocrash (status 0, empty stderr, only tag lines for every '
+                    'argument list, accepted -l and -j; MO loader, check_language, check_plurals, check_dates discharged; C10/C15/C16 as the named hypotheses `Pending`), pipeline_crash_visible, '
+                    'line_is_tag_line (C02), recursion_budget. OUTSTANDING: the Pending fields; any theorem about time; recursion depth (REFUTED on the real code: open finding '
+                    'crash:RecursionError:lib/intexpr.py, plural expressions nested deeper than ~490, replayed from corpus/C01 on every run). '
+                    'TEST (this run): %d in-process files, %d command-line runs, %d size-doubling families, %d regexes screened (%d repeats pumped), %d slot-sweep files. '
+                    'FIXED by this check\'s findings in /repo: 4ff67ee, d16b49e, 875595a (+ recorded 2f85d76, 9de4551).'
+                    % (len(cases), chk.coverage.get('command_line', {}).get('runs', 0), len(HG.TIMING_FAMILIES), chk.coverage.get('regex_screen', {}).get('patterns', 0),
+                       chk.coverage.get('regex_screen', {}).get('screened_repeats', 0), chk.coverage.get('slot_sweep', {}).get('files', 0)))
 
 if __name__ == '__main__':
     common.main_wrapper(main)
